@@ -8,7 +8,7 @@ res = {}
 rp = os.path.join(V, "seeded", "RESULTS.json")
 if os.path.exists(rp):
     res = json.load(open(rp))
-for d in sorted(glob.glob(os.path.join(V, "seeded", "[STUVWXY]*_*"))):
+for d in sorted(glob.glob(os.path.join(V, "seeded", "[STUVWXYZ]*_*"))):
     m = json.load(open(os.path.join(d, "meta.json")))
     if only and m["id"] not in only and not any(m["id"].startswith(o) for o in only):
         continue
